@@ -69,6 +69,19 @@ def exercise():
             s = world.ScriptedApi(t2, "ab1c2d", "18")
             await s.run(9 if t2 else 11, [], [bytes(8) + b"\x01\x02\x03\x04" + bytes(12), bytes(120)], 1_700_000_000)
     asyncio.run(go())
+    # objects built with other spellings of their arguments (never started, never connected): ports as a tuple, a set, a mapping from
+    # category to port, a generator; ids in upper case; whatever the constructors make of them, the tables are not theirs to change
+    from aioswitcher.bridge import SwitcherBridge
+    from aioswitcher.api import SwitcherType1Api, SwitcherType2Api
+    for spec in ((20002, 10002), {20003}, {DeviceCategory.SHUTTER: 10003, DeviceCategory.WATER_HEATER: 10002}, {c: 1 for c in DeviceCategory}, (p for p in [1, 2]), None, [], "20002"):
+        try: SwitcherBridge(lambda dev: None, spec)
+        except Exception: pass
+        try: SwitcherBridge(lambda dev: None, broadcast_ports=spec)
+        except Exception: pass
+    for cls in (SwitcherType1Api, SwitcherType2Api):
+        for a in (("1.2.3.4", "AB1C2D", "18"), ("1.2.3.4", "ab1c2d", "18", 1234), ("::1", "000000", "00")):
+            try: cls(*a)
+            except Exception: pass
     # ... and the last things the library sees are broadcasts of known models that fail to decode, and a user callback that raises
     from aioswitcher.bridge import _parse_device_from_datagram
     def boom(dev): raise KeyError("user callback")
